@@ -11,6 +11,7 @@
 
 
 
+import copy
 import importlib
 import os
 from pathlib import Path
@@ -186,7 +187,7 @@ class ScenarioManagerSd(ScenarioManager):
         for name, function in model.functions.items():
             new_function = new_mod.function(name, model.fn[name])
 
-        new_mod.points = model.points
+        new_mod.points = copy.deepcopy(model.points)
 
         return new_mod
 
